@@ -30,6 +30,16 @@ impl Driven for D {
          _ => panic!("verif harness: unknown relation {}", rel),
       }
    }
+   fn clear(&mut self, rel: &str) {
+      match rel {
+         "t" => { self.0.t = Default::default(); },
+         "u" => { self.0.u = Default::default(); },
+         "a1" => { self.0.a1 = Default::default(); },
+         "a2" => { self.0.a2 = Default::default(); },
+         "a3" => { self.0.a3 = Default::default(); },
+         _ => panic!("verif harness: unknown relation {}", rel),
+      }
+   }
    fn run(&mut self) { self.0.run(); }
    fn dump(&self) -> Value {
       let mut m: Vec<(String, Value)> = vec![];
